@@ -68,6 +68,8 @@ def blockers_for(seed, si, op, spec, troot, target):
         return []
     r = common.rng_for(seed, "C05blk", si)
     fl = [e for e in spec["entries"] if e["t"] == "f" and e["fam"] != 999]
+    if len(fl) < 2:
+        return []
     victim = r.choice(fl[1:])
     dest = fse(target) + fse(os.path.join(troot, victim["p"]))
     data = b"pre-existing file in the move target %d" % si if r.random() < 0.5 else tree.content(victim["fam"], victim["len"], ())
